@@ -171,8 +171,40 @@ def install_stubs():
     req.Timeout = StubTimeout
     req.get = lambda *a, **k: StubResponse()
     sys.modules["requests"] = req
-    for name in ("aiohttp", "tornado"):
-        sys.modules.setdefault(name, types.ModuleType(name))
+    # the other two client libraries the package hooks: enough of them for their hooks to be
+    # constructed on the shared fail-safe, as the package does for every library that is
+    # installed (they register their own connection errors there); no traffic goes through them
+    aio = types.ModuleType("aiohttp")
+    aio.client = types.ModuleType("aiohttp.client")
+
+    class ClientSession:
+        async def _request(self, *a, **kw):
+            raise RuntimeError("stub")
+
+    aio.client.ClientSession = ClientSession
+    aio.ClientSession = ClientSession
+    aio.typedefs = types.ModuleType("aiohttp.typedefs")
+    aio.typedefs.StrOrURL = str
+    aio.client_exceptions = types.ModuleType("aiohttp.client_exceptions")
+    for n in ("ClientConnectionError", "ClientConnectorError", "ClientSSLError"):
+        setattr(aio.client_exceptions, n, type(n, (Exception,), {}))
+    aio.ClientResponse = object
+    for m in (aio, aio.client, aio.typedefs, aio.client_exceptions):
+        sys.modules[m.__name__] = m
+    md = types.ModuleType("multidict")
+    md.CIMultiDictProxy = dict
+    md.CIMultiDict = dict
+    sys.modules.setdefault("multidict", md)
+    tor = types.ModuleType("tornado")
+    tor.httpclient = types.ModuleType("tornado.httpclient")
+    tor.httputil = types.ModuleType("tornado.httputil")
+    tor.httpclient.HTTPClientError = type("HTTPClientError", (Exception,), {})
+    tor.httpclient.HTTPRequest = type("HTTPRequest", (), {})
+    tor.httpclient.HTTPResponse = type("HTTPResponse", (), {})
+    tor.httpclient.AsyncHTTPClient = type("AsyncHTTPClient", (), {"fetch": lambda self, *a, **kw: None})
+    tor.httputil.HTTPHeaders = dict
+    for m in (tor, tor.httpclient, tor.httputil):
+        sys.modules[m.__name__] = m
     # package skeletons so that the real package __init__ (handshake, hook
     # installation at import time) is not executed
     for name, path in (("lunar_interceptor", PKG), ("lunar_interceptor.interceptor", PKG + "/interceptor"),
@@ -188,6 +220,12 @@ fail_safe_mod = importlib.import_module("lunar_interceptor.interceptor.fail_safe
 traffic_filter_mod = importlib.import_module("lunar_interceptor.interceptor.traffic_filter")
 configuration_mod = importlib.import_module("lunar_interceptor.interceptor.configuration")
 requests_hook_mod = importlib.import_module("lunar_interceptor.interceptor.hooks.requests")
+OTHER_HOOKS = {}
+for _name, _cls in (("aiohttp", "AioHttpHook"), ("tornado", "TornadoHook")):
+    try:
+        OTHER_HOOKS[_name] = getattr(importlib.import_module("lunar_interceptor.interceptor.hooks." + _name), _cls)
+    except Exception as _e:  # noqa: the stub does not carry this hook's imports: it stays out
+        OTHER_HOOKS[_name] = None
 
 LOGGER = logging.getLogger("verif-c19")
 LOGGER.addHandler(logging.NullHandler())
@@ -373,7 +411,15 @@ def simulate(run):
         return StubResponse(200, {}, "direct")
 
     REQ.Session.request = transport
+    # the package builds one hook per installed client library on the one fail-safe, in
+    # this order: aiohttp, requests, tornado
+    installed = [[], ["aiohttp"], ["tornado"], ["aiohttp", "tornado"]][tp.choose(4)]
+    run.knobs["other_client_libraries_installed"] = ",".join(installed) or "none"
+    if "aiohttp" in installed and OTHER_HOOKS.get("aiohttp"):
+        OTHER_HOOKS["aiohttp"](LOGGER, fs, tf, conn)
     hook = requests_hook_mod.RequestsHook(LOGGER, fs, tf, conn)
+    if "tornado" in installed and OTHER_HOOKS.get("tornado"):
+        OTHER_HOOKS["tornado"](LOGGER, fs, tf, conn)
     wrapped = hook._hook_module()
     session = REQ.Session()
 
